@@ -1762,6 +1762,9 @@ BitmapImage::BitmapImage(const BitmapImage& im)
 }
 
 const BitmapImage& BitmapImage::operator=(const BitmapImage& im) {
+  if (this == &im) {
+    return *this;
+  }
   this->width = im.width;
   this->height = im.height;
   this->row_bytes = im.row_bytes;
